@@ -344,8 +344,7 @@ class Stream(meta(Iterable, metaclass=StreamMeta)):
     """
     Enforces the Stream to finish after ``n`` items.
     """
-    data = self._data
-    self._data = (next(data) for _ in xrange(int(round(n))))
+    self._data = it.islice(self._data, max(int(round(n)), 0))
     return self
 
   def __getattr__(self, name):
